@@ -1069,7 +1069,7 @@ var vfTextPieces = []string{
 	"{", "}", "[", "]", "\"", ":", ",", " ", "\n", "\r\n", "\t", "a", "1", "0.5", "-1e3", "true", "null",
 	"\"type\":\"Feature\"", "\"log\":{\"version\":1}", "\"asset\":{\"version\":\"2.0\"}", "\\", "\\u00e9", "\\n",
 	"<", ">", "<html>", "<!DOCTYPE html>", "<meta charset=", "<?xml version=\"1.0\"", " encoding=\"", "?>", "<svg",
-	"#!/usr/bin/env python\n", "#!/usr/bin/perl\n", "<?php", "BEGIN:VCARD\n", "BEGIN:VCALENDAR\r\n", "WEBVTT\n", "WEBVTT",
+	"#!/usr/bin/env python\n", "#!/usr/bin/perl\n", "#!", "#!              ", "#! \t \t \t \t \t \t \t \t \n", "#!\n", "#! /usr/bin/env   \n", "#!/usr/bin/env\tphp -d x\n", "<?php", "BEGIN:VCARD\n", "BEGIN:VCALENDAR\r\n", "WEBVTT\n", "WEBVTT",
 	"1\n00:02:16,612 --> 00:02:19,376\nhi\n", "{\\rtf1", "a,b,c\n", "1\t2\t3\n", "#comment\n", "\"q,\"\"q\"", "WARC/1.0",
 	"\xef\xbb\xbf", "\xff\xfe", "\xfe\xff", "\xc3\xa9", "\xe2\x82\xac", "\x85", "\xa0", "\xff", "\x1b", "\x0c", "\x7f",
 	"PK\x03\x04", "%PDF-", "\x00", "\x01", "MZ", "BM", "GIF89a", "é", "日本",
@@ -1100,6 +1100,21 @@ func vfGenLong(t *rapid.T) (x []byte, limit uint32) {
 		L = rapid.SampledFrom([]int{3073, 4096, 6144, 8192, n - 1, n, n + 1}).Draw(t, "longlimit2")
 	}
 	return x, uint32(L)
+}
+
+// vfTarWindow writes an octal-looking field (what a tar checksum field holds) at offset 148..155
+// of a long text: a signature check that normalises that field IN PLACE would change what the
+// later checks see.
+func vfTarWindow(t *rapid.T, x []byte) []byte {
+	for len(x) < 520 {
+		x = append(x, x...)
+		if len(x) == 0 {
+			x = append(x, "filler text "...)
+		}
+	}
+	f := rapid.SampledFrom([]string{"0001750\x00", "01234567", "0000000\x00", "   1234 ", "7777777\x00", "12345670", "0001750 "}).Draw(t, "tarfield")
+	copy(x[148:156], f)
+	return x
 }
 
 // vfIsBinByte is the WHATWG binary data byte predicate, written from the specification
